@@ -50,7 +50,7 @@ Definition line94 (m : N) (st : lstate94) (raw : text) : option (lstate94 + opti
     let low := before_semicolon (lower raw) in
     let fs := fields (commas_to_spaces low) in
     match fs with
-    | [] => Some (inl st)
+    | [] => match fields low with [] => Some (inl st) | _ => None end     (* nothing but commas is not a blank line *)
     | [op; am; a; bm; b] =>
       if negb (has_char 44 low) then None else
       (* getOp94 *)
@@ -110,7 +110,7 @@ Definition line88 (m : N) (st : lstate94) (raw : text) : option (lstate94 + opti
     let low := before_semicolon (lower raw) in
     let fs := fields (commas_to_spaces low) in
     match fs with
-    | [] => Some (inl st)
+    | [] => match fields low with [] => Some (inl st) | _ => None end     (* nothing but commas is not a blank line *)
     | [op; am; a; bm; b] =>
       if negb (has_char 44 low) then None else
       match opcode88_of_text op, amode88_of_text am, parse_address a m,
